@@ -16,7 +16,7 @@ from simkit import core
 
 ID = 'C13'
 LEVEL = 'exploration'
-RUN_TIMEOUT = 60.0
+RUN_TIMEOUT = 25.0
 CHUNK = 100
 TIERS = {'quick': dict(runs=60000, budget_s=70), 'thorough': dict(runs=2500000, budget_s=1500)}
 KINDS = ['list', 'dict', 'tuple', 'box']
@@ -32,7 +32,7 @@ STUBS = ['harness Box class and its printer (raises KeyboardInterrupt on demand)
 ASSUMPTIONS = ['graphs reached: all rooted graphs with <= 3 nodes over 4 node kinds exhaustively (thorough: plus 4 '
                'nodes over list/dict), larger ones (<= 6 nodes) by seeded histories; prints whose expected '
                'output exceeds 5000 nodes are skipped',
-               'a print that does not return within 60 s (then 180 s on a confirming re-run) counts as '
+               'a print that does not return within 25 s (then 75 s on a confirming re-run) counts as '
                'non-termination']
 MAX_EXPECT = 5000
 MARK = re.compile(r'<Recursion on (\w+) with id=(\d+)>')
@@ -92,7 +92,10 @@ def generate(rng, idx, tier):
     g = _enum_graph(idx, tier)
     if g is not None:
         kinds, edges = g
-        ops = [['new', k] for k in kinds] + [['edge', p, c] for p, c in edges]
+        wrap = (idx // 3) % 4      # 0,1: plain; 2: every edge under comment(); 3: under trailing_comment()
+        ops = [['new', k] for k in kinds] + [
+            ['edge', p, c] + ([] if wrap < 2 else ['comment' if wrap == 2 else 'tcomment', 'note %d %d' % (p, c)])
+            for p, c in edges]
         w = [10, 30, 79][idx % 3]
         n = len(kinds)
         # every node as root, then again in another order (residue), then once more after an abort
@@ -108,6 +111,7 @@ def generate(rng, idx, tier):
     wk = dict(new=2, edge=rng.choice([2, 3, 5]), dele=rng.choice([0, 1]), prt=rng.choice([2, 3]),
               abort=rng.choice([0, 1, 2]), cc=rng.choice([0, 1]))
     bag = [k for k, c in sorted(wk.items()) for _ in range(c)]
+    p_wrap = rng.choice([0.0, 0.0, 0.15, 0.4])
     kinds_w = rng.choice([KINDS, KINDS + ['box'], ['list', 'dict'], ['tuple', 'box', 'list']])
     for _ in range(rng.randrange(4, 26)):
         k = rng.choice(bag)
@@ -119,7 +123,13 @@ def generate(rng, idx, tier):
             continue
         elif k == 'edge':
             c = rng.randrange(n) if rng.random() < 0.75 else 'leaf'
-            ops.append(['edge', rng.randrange(n), c])
+            op = ['edge', rng.randrange(n), c]
+            if rng.random() < p_wrap:
+                # the child hangs under a comment()/trailing_comment() wrapper: transparent for the graph
+                op.append(rng.choice(['comment', 'comment', 'tcomment']))
+                op.append(rng.choice(['note', 'a considerably longer note that will not fit on one short line at all',
+                                      'back reference']))
+            ops.append(op)
         elif k == 'dele':
             ops.append(['del', rng.randrange(n), rng.randrange(4)])
         elif k == 'prt':
@@ -135,7 +145,17 @@ def generate(rng, idx, tier):
 
 
 # ------------------------------------------------------------------ reference model
+WRAPPED = {}     # id(comment wrapper object) -> the child it wraps (harness-owned; per run)
+
+
+def _unwrap(v):
+    while id(v) in WRAPPED:
+        v = WRAPPED[id(v)][1]
+    return v
+
+
 def kids(n):
+    n = _unwrap(n)
     if isinstance(n, list):
         return list(n)
     if isinstance(n, dict):
@@ -148,6 +168,7 @@ def kids(n):
 
 
 def expect(n, path, budget):
+    n = _unwrap(n)
     ks = kids(n)
     budget[0] -= 1
     if budget[0] < 0:
@@ -191,6 +212,7 @@ def execute(spec):
     warnings.simplefilter('ignore')
     sys.setrecursionlimit(5000)
     nodes = []
+    WRAPPED.clear()
     leaf = [100]
     counters = {}
     res = dict(steps=len(spec['ops']), counters=counters, nontrivial=False,
@@ -234,6 +256,12 @@ def execute(spec):
             else:
                 c = nodes[op[2] % len(nodes)]
             t = tgt(p)
+            if len(op) > 3:
+                # comment wrappers are not containers: the reference DFS looks through them
+                w = (P.comment if op[3] == 'comment' else P.trailing_comment)(c, op[4])
+                WRAPPED[id(w)] = (w, c)       # keeps the wrapper alive, so its id stays unique
+                c = w
+                bump('commented_edges')
             if isinstance(t, list):
                 t.append(c)
             elif isinstance(t, dict):
@@ -320,7 +348,7 @@ def run(spec):
 def on_timeout(spec):
     kind, res = core.in_fork(lambda: execute(spec), RUN_TIMEOUT * 3)
     if kind == 'timeout':
-        return {'class': 'no_termination', 'signature': 'timeout', 'steps': len(spec['ops']),
+        return {'class': 'no_termination', 'signature': 'timeout', 'replay_spec': None, 'steps': len(spec['ops']),
                 'detail': dict(ops=spec['ops'][:40]), 'digest': core.digest_of(spec['ops']),
                 'counters': {}, 'nontrivial': False}
     if kind == 'ok':
